@@ -45,6 +45,9 @@ def build(d):
             new_date = old_date + dt.timedelta(days=off)
         except OverflowError:
             new_date = old_date
+    if parts & {"WW", "0W", "UU", "0U"} and old_date.timetuple().tm_yday > 7 and d.chance(1, 3):
+        # the first days of a year are week 0: an earlier date in the same year, where the week number is 0
+        new_date = dt.date(old_date.year, 1, d.int(1, 6))
     if parts & {"YY", "0Y", "GG", "0G"} and not (2001 <= new_date.year <= 2099 and 2001 <= ref_cal(new_date)["year_g"] <= 2099):
         new_date = old_date
     return {"ast": nodes, "state": state, "old": text, "flags": flags, "date": new_date.isoformat()}
